@@ -76,6 +76,31 @@ def run(ctx):
     ctx.cov["evaluations"] += len(c3)
     ctx.cov["distinct_nontrivial"] += len(allfens)
     ctx.sample({"case": c3[0], "engine": o1[0]})
+    # (c') the same on the position OBJECT a game reaches (keys are kept incrementally by do_move; a FEN text alone never shows a stale
+    #      key): after every move of every game, Position(p.fen()) must be identical to p (operator== both ways, key, pawn key, FEN, side,
+    #      rights, en-passant square).  Games: the ones above, every legal move of the castling x en-passant x promotion constructions,
+    #      and two further plies from those (castling in answer to a double push, twice in a row)
+    combos = posgen.filter_valid(model, posgen.combo_positions(ctx.rng, 60 if q else 600))
+    rgames = list(games) + posgen.all_moves_games(model, combos)
+    two = posgen.playouts(model, ctx.rng, [ctx.rng.choice(combos) for _ in range(300 if q else 4000)], 4)
+    rgames += two
+    c4 = ["g_reload %s | %s" % (f, " ".join(ms)) for f, ms in rgames]
+    rc4, o4, e4 = run_lines(impl, c4, shards=NPROC)
+    nrel = 0
+    for c, a in zip(c4, o4):
+        flags = (a or "").split(" ; ")
+        nrel += len(flags)
+        badi = [i for i, x in enumerate(flags) if x != "11111111"]
+        if a is None or badi:
+            nviol += 1
+            if nviol <= 6:
+                i = badi[0] if badi else -1
+                names = ["reload == p", "p == reload", "key", "pawn key", "FEN text", "side", "rights", "en-passant square"]
+                wrong = [n for n, ch in zip(names, flags[i]) if ch != "1"] if badi else ["no answer"]
+                ctx.violation("the position reached by a game and its reload from the FEN it prints differ (%s) after %d move(s): %s" % (", ".join(wrong), i, c[9:][:300]),
+                              {"op": c, "flags_per_ply": flags, "ply": i}, key="c16reload:" + c)
+    ctx.cov["evaluations"] += nrel
+    ctx.notes["game_positions_reloaded_and_compared"] = nrel
     # (d) the same through the real entry point: `position fen F [moves ...]` / `position startpos moves ...` on the engine binary,
     #     then `printboard`: the FEN shown must be F / the FEN the rules give after the moves (Uci::position_command, moves_command)
     import uciglue
